@@ -30,7 +30,7 @@ RULE = ("a case = one program chain (1-3 segments) whose operation parameters ar
         "parameters (incl. values measured in earlier segments and re-measured modes) and constants, executed symbolically and as its numeric "
         "twin under the same injected outcome tape, through run(compile_options) or an explicit compile(compiler, optimize) first; plus misuse "
         "runs (use before measurement, unbound, unknown name) and foreign programs reusing the same mode indices / parameter names at seeded "
-        "points; non-trivial iff a non-constant symbolic expression was evaluated at run time; distinct = distinct script digests")
+        "points; fockcount / hetero batches: photon counts (also inside array-valued kets) and complex heterodyne outcomes as parameters; non-trivial iff a non-constant symbolic expression was evaluated at run time; distinct = distinct script digests")
 REAL = ["strawberryfields.parameters (MeasuredParameter, FreeParameter, par_evaluate, par_funcs)", "strawberryfields.program (params, bind_params, compile, optimize)",
         "strawberryfields.ops (every parametrised operation, decompositions with symbolic arguments)", "strawberryfields.engine (segments, value hand-over)",
         "compilers gaussian / fock / bosonic / gaussian_unitary", "Gaussian, Fock, bosonic simulators"]
